@@ -899,7 +899,7 @@ func (in *Interp) makeRange(x Value) Value {
 		for i := range it.Order {
 			it.Order[i] = i
 		}
-		if in.spec.OrderForks && n >= 2 {
+		if in.spec.OrderForks && in.underTest > 0 && n >= 2 {
 			if n <= 3 {
 				ps := perms[n]
 				it.Order = ps[in.choose("maporder", len(ps))]
